@@ -894,6 +894,14 @@ class FuncTranslator:
                 return self.call_stdlib(f.value.id + '.' + meth, e)
         if isinstance(f.value, ast.Attribute) and isinstance(f.value.value, ast.Name) and f.value.value.id == 'datetime' and self.lookup('datetime') is None:
             return self.call_stdlib('datetime.%s.%s' % (f.value.attr, meth), e)
+        # s.encode('ascii').decode('ascii'): the identity on ASCII strings, UnicodeEncodeError otherwise
+        if meth == 'decode' and isinstance(f.value, ast.Call) and isinstance(f.value.func, ast.Attribute) and f.value.func.attr == 'encode':
+            enc_args = [a.value for a in f.value.args if isinstance(a, ast.Constant)]
+            dec_args = [a.value for a in args if isinstance(a, ast.Constant)]
+            if enc_args == ['ascii'] and dec_args in (['ascii'], []) and not e.keywords and not f.value.keywords and len(f.value.args) == 1:
+                v0, t0 = self.expr(f.value.func.value)
+                if t0 == 'str':
+                    return ('(← Py.asciiOnly %s)' % par(v0), 'str')
         # nested module path like stdnum.xx.yy.func is not used in the library
         v, t = self.expr(f.value)
         if t == 'str':
